@@ -32,6 +32,13 @@ pub fn k_zoned_fixed_new(s: i64, ns: i32, off: i32) -> Option<(i32, D3, T4, (i64
     Some((z.offset().seconds(), d3(dt.date()), t4(dt.time()), (t.as_second(), t.subsec_nanosecond()), f::to_epoch_day(d3(dt.date()))))
 }
 
+/// C13: equality and ordering of Zoned values depend on the instant only (any two fixed zones)
+pub fn k_zoned_fixed_cmp(s1: i64, n1: i32, o1: i32, s2: i64, n2: i32, o2: i32) -> Option<(bool, i8, bool)> {
+    let a = Zoned::new(Timestamp::new(s1, n1).ok()?, TimeZone::fixed(Offset::from_seconds(o1).ok()?));
+    let b = Zoned::new(Timestamp::new(s2, n2).ok()?, TimeZone::fixed(Offset::from_seconds(o2).ok()?));
+    Some((a == b, a.cmp(&b) as i8, a.partial_cmp(&b) == Some(a.cmp(&b))))
+}
+
 // ---- C06 for fixed-offset zones
 type TS = (i64, i32);
 #[inline(always)]
